@@ -4,6 +4,8 @@ import (
 	"fmt"
 	"sync"
 
+	"github.com/meshplus/bitxhub-kit/types"
+	"github.com/meshplus/bitxhub-model/constant"
 	"github.com/meshplus/bitxhub-model/pb"
 )
 
@@ -148,5 +150,51 @@ func TrafficWorld(audit bool) *Template {
 		r := w.Block(w.RegisterServiceTx(ChainAdmins["chainC"], "chainC", "open1", true, ""))[0]
 		mustOK(r, "open proposal")
 		data["openProposal"] = ProposalID(r)
+	})
+}
+
+// GovNormalAdmins / GovNodes are the extra governance objects of the gov world.
+var (
+	GovNormalAdmins = []string{"gov-normal-1", "gov-normal-2"}
+	GovNodes        = []string{"gov-node-1", "gov-node-2"}
+)
+
+// GovWorld is the std world plus two normal (non-super) governance administrators, two registered
+// non-validating nodes and two deployed rule contracts (addresses in Data["rule1"], Data["rule2"]) of which
+// the first is registered (bindable) for chainA. Used for the lifecycle of roles, nodes and rules.
+func GovWorld(audit bool) *Template {
+	name := fmt.Sprintf("gov-audit=%v", audit)
+	return GetTemplate(name, NodeOpts{Audit: audit}, func(w *World, data map[string]string) {
+		w.Fund("1000000000000000000", ChainAdmins["chainA"], ChainAdmins["chainB"], ChainAdmins["chainC"], Outsiders[0], Outsiders[1])
+		for _, c := range []string{"chainA", "chainB", "chainC"} {
+			w.RegisterAppchain(ChainAdmins[c], c)
+		}
+		w.RegisterService(ChainAdmins["chainA"], "chainA", "s1", true, "")
+		w.RegisterService(ChainAdmins["chainB"], "chainB", "s1", true, "")
+		through := func(r *pb.Receipt, what string) {
+			mustOK(r, what)
+			pid := ProposalID(r)
+			// the electorate grows with the normal administrators: all four genesis administrators vote, later
+			// votes on an already concluded proposal are refused
+			for i, vr := range w.VoteThrough(pid, true, len(w.N.Admins)) {
+				if i < w.Majority() {
+					mustOK(vr, fmt.Sprintf("vote %d on %s (%s)", i, pid, what))
+				}
+			}
+		}
+		for _, nme := range GovNormalAdmins {
+			k := KeyFor(nme)
+			through(w.Block(w.BVM(w.N.Admins[0], constant.RoleContractAddr, "RegisterRole", pb.String(k.Addr.String()), pb.String("governanceAdmin"), pb.String(""), pb.String("r")))[0], "register role "+nme)
+		}
+		for _, nme := range GovNodes {
+			k := KeyFor(nme)
+			through(w.Block(w.BVM(w.N.Admins[0], constant.NodeManagerContractAddr, "RegisterNode", pb.String(k.Addr.String()), pb.String("nvpNode"), pb.String(""), pb.Uint64(0), pb.String(nme), pb.String("chainA"), pb.String("r")))[0], "register node "+nme)
+		}
+		for i := 1; i <= 2; i++ {
+			r := w.Block(DeployTx(ChainAdmins["chainA"], w.Nonces.Next(ChainAdmins["chainA"]), w.nextTS(), RuleWasm()))[0]
+			mustOK(r, "deploy rule")
+			data[fmt.Sprintf("rule%d", i)] = types.NewAddress(r.Ret).String()
+		}
+		mustOK(w.Block(w.BVM(ChainAdmins["chainA"], constant.RuleManagerContractAddr, "RegisterRule", pb.String("chainA"), pb.String(data["rule1"]), pb.String("http://rule1")))[0], "register rule1")
 	})
 }
